@@ -95,7 +95,7 @@ def generate(rng, tier, prop):
     extra = []
     for _ in range(rng.randint(0, 3)):
         extra.append({"entry": rng.randrange(8), "key": rng.choice(["author", "editor", "x", "year", "keywords"]),
-                      "kind": rng.choice(["nameparts", "nameparts", "nameparts_list", "str_list", "int", "none"])})
+                      "kind": rng.choice(["nameparts", "nameparts", "nameparts_list", "str_list", "int", "none", "dup_field", "dup_field"])})
     ops = [{"op": "library", "extra_fields": extra}]
     if mode == "options":
         if direction == "encode":
@@ -209,6 +209,13 @@ def execute(run, props):
                     v = ["one", "two"]
                 elif x["kind"] == "int":
                     v = 1999
+                elif x["kind"] == "dup_field":
+                    # an entry taken out of a duplicate-field block: the same field key twice
+                    strs = [f for f in e.fields if isinstance(f.value, str)]
+                    if strs:
+                        f0 = strs[x["entry"] % len(strs)]
+                        e.fields.insert(e.fields.index(f0) + (x["entry"] % 2), M.Field(f0.key, "second value for this key"))
+                    continue
                 else:
                     v = None
                 e.set_field(M.Field(x["key"], v))
